@@ -6,6 +6,13 @@ RULE = ("hostile byte streams through the real BMP connection handler: valid mul
         "larger than the data, every message type carrying arbitrary payload bytes, pure random bytes; read errors of every io::ErrorKind class "
         "interleaved; end of file or unit shutdown at the end; bytes handed out in random chunk sizes. Observable = panicked / wedged / stuck?, "
         "what ended the reads, how many read events were consumed, shape of the final cleanup (and the full update trace where every frame is known). "
+        "A second family of cases (1 200 quick / 30 000 thorough) is structurally valid: Initiation, Peer Ups with and without the Graceful Restart capability, "
+        "Route Monitoring messages whose UPDATE octets come from C04's proved encoder (oracle c04enc: announcements / withdrawals of the four families, "
+        "End-of-RIB forms, unknown AFI/SAFIs, and the degenerate-but-valid shapes: MP_REACH_NLRI without NLRI alone / next to withdrawals / of an unknown family, "
+        "MP_UNREACH_NLRI without NLRI, attributes only, the empty UPDATE), statistics, peer downs, termination, bursts of 5-14 messages the state machine "
+        "rejects (more than the 10 recent parse errors the router's page keeps); one in five then gets a byte mutation. An HTTP client (op G: GET router list, "
+        "GET the router's page, render the metrics, through the real request processors) visits after the last byte, between messages or anywhere: expected "
+        "a page each time, listing min(#rejected, 10) parse errors oldest first - never a panic. "
         "A case is non-trivial when at least one complete header was read and the stream is not a pristine valid one; distinct = distinct case text")
 
 
@@ -83,10 +90,168 @@ def gen(rng, tier):
         yield make_case(Stream(items), table, rng.chance(20), rng)
 
 
+# ---------------------------------------------------------------- structurally valid streams, UPDATEs from C04's proved encoder
+# Route Monitoring messages carry the octets `oracle c04enc` makes of an UPDATE AST: ordinary announcements / withdrawals of
+# the four families (lib/gens/pipegen.raw_ast) and the degenerate-but-valid shapes a byte mutator never arrives at - an
+# MP_REACH_NLRI without NLRI (known and unknown AFI/SAFI, alone or next to withdrawals), an MP_UNREACH_NLRI without NLRI,
+# attributes only, the empty UPDATE - for peers whose Peer Up carried the Graceful Restart capability and for peers without.
+# The streams also hold the messages the state machine answers with InvalidMessage (each one a recent-parse-error entry of
+# the router's page), in bursts of more than the 10 the page keeps, and the HTTP client's visits (`G`).
+from gens import pipegen
+
+
+def degenerate_ast(rng):
+    k = rng.weighted([("reach0", 40), ("reach0-wd", 12), ("reach0-unk", 10), ("reach0-unreach", 10), ("unreach0", 10), ("attrs", 10), ("empty", 8)])
+    if k == "empty":
+        return "U 0 0 0"
+    if k == "unreach0":
+        return "U 0 1 N %d P %d 0 0" % (0x80 | (0x10 if rng.chance(25) else 0), rng.below(4))
+    attrs = pipegen._raw_attrs(rng, False)
+    if k == "attrs":
+        return "U 0 %d %s 0" % (len(attrs), " ".join(attrs))
+    fam = rng.below(4)
+    wd = []
+    if k == "reach0-unk":
+        afi, safi = rng.choice(pipegen.UNKNOWN_FAMS)
+        reach = "R 128 0a000001 0 O %d %d -" % (afi, safi)
+    else:
+        reach = pipegen._mp("R", fam, [], rng)
+    attrs.insert(rng.below(len(attrs) + 1), reach)
+    if k == "reach0-wd":
+        wd = pipegen._pick(rng, 0)
+    if k == "reach0-unreach":
+        f2 = rng.below(4)
+        attrs.insert(rng.below(len(attrs) + 1), pipegen._mp("N", f2, pipegen._pick(rng, f2) if rng.chance(60) else [], rng))
+    return "U %d %s %d %s 0" % (len(wd), " ".join(wd), len(attrs), " ".join(attrs))
+
+
+def update_pool(rng, n):
+    """n UPDATE PDUs (hex) from the proved encoder: half ordinary, half degenerate."""
+    asts = []
+    for i in range(n):
+        if i % 2:
+            asts.append(degenerate_ast(rng))
+        else:
+            asts.append(pipegen.raw_ast(rng, rng.weighted([("ann", 40), ("wd", 25), ("both", 15), ("eor", 8), ("eorlike", 6), ("unk", 6)]))[0])
+    enc = V.run_lines(V.ORACLE, "c04enc", asts, shards=4)
+    out = []
+    for a, e in zip(asts, enc):
+        parts = e.split()
+        if len(parts) != 3 or parts[0] != "1":
+            raise V.CheckBroken(f"c04enc failed on / rejected the AST {a!r}: {e}")
+        out.append(parts[2])
+    return out
+
+
+def wire_descrs(rng, updates):
+    peers = rng_sample(rng, pipegen.DISTINCT_PEERS if rng.chance(80) else list(range(10)), rng.range(1, 3))
+    others = [p for p in range(10) if p not in peers]
+    d = ["I"] if rng.chance(95) else []
+    up = set()
+    for p in peers:
+        d.append("U.%d.%d" % (p, rng.weighted([(1, 60), (0, 40)])))
+        up.add(p)
+
+    def invalid_one():
+        # what the state machine answers with InvalidMessage
+        k = rng.weighted([("D", 40), ("RB", 35), ("N", 15), ("U", 10)])
+        if k == "D":
+            return "D.%d" % rng.choice(others)
+        if k == "RB":
+            return "RB.%d.%s" % (rng.choice(others), rng.choice(updates))
+        if k == "N" and up:
+            return "N.%d" % rng.choice(sorted(up))
+        if up:
+            return "U.%d.%d" % (rng.choice(sorted(up)), rng.below(2))
+        return "D.%d" % rng.choice(others)
+    for _ in range(rng.range(2, 14)):
+        k = rng.weighted([("RB", 60), ("burst", 10), ("inv", 10), ("E", 5), ("S", 3), ("D", 5), ("U", 5), ("X", 2)])
+        p = rng.choice(sorted(up)) if up and rng.chance(90) else rng.choice(peers)
+        if k == "RB":
+            d.append("RB.%d.%s" % (p, rng.choice(updates)))
+        elif k == "burst":
+            d += [invalid_one() for _ in range(rng.range(5, 14))]
+        elif k == "inv":
+            d.append(invalid_one())
+        elif k == "E":
+            d.append("E.%d.%d" % (p, rng.below(4)))
+        elif k == "S":
+            d.append("S.%d" % p)
+        elif k == "D":
+            d.append("D.%d" % p)
+            up.discard(p)
+        elif k == "U":
+            d.append("U.%d.%d" % (p, rng.below(2)))
+            up.add(p)
+        else:
+            d.append("X")
+            up.clear()
+    return d
+
+
+def gen_wire(rng, tier):
+    quick = tier == "quick"
+    updates = update_pool(rng.fork("updates"), 300 if quick else 3000)
+    n = 1200 if quick else 30000
+    plans = [wire_descrs(rng, updates) for _ in range(n)]
+    plans.append(["I", "U.0.1"] + ["D.5"] * 25)     # more invalid messages than the page keeps
+    pool = render(sorted({d for s in plans for d in s}))
+    for s in plans:
+        table = {pool[d]: d for d in s}
+        items, bounds = [], []
+        for d in s:
+            bounds.append(len(items))
+            items += list(bytes.fromhex(pool[d]))
+        if rng.chance(20):
+            items = mutate(rng, items, [b for b in bounds if b < len(items)])
+            bounds = [b for b in bounds if b < len(items)]
+        if rng.chance(15):
+            items.insert(rng.below(len(items) + 1), rng.choice(KINDS))
+        # the HTTP client: after the last byte (the common case), between two messages, anywhere
+        where = []
+        if rng.chance(85):
+            where.append(len(items))
+        if rng.chance(35) and bounds:
+            where.append(rng.choice(bounds))
+        if rng.chance(10):
+            where.append(rng.below(len(items) + 1))
+        for w in sorted(where, reverse=True):
+            items.insert(w, GET)
+        yield make_case(Stream(items), table, rng.chance(20), rng)
+
+
+def gen_all(rng, tier):
+    yield from gen(rng, tier)
+    yield from gen_wire(rng.fork("wire"), tier)
+
+
 def nontrivial(case, out):
     t = out.split()
     pos = next((int(x[4:]) for x in t if x.startswith("pos:")), 0)
     return pos >= 5
+
+
+def corpus_wire():
+    """seeded C06-3: Initiation, Peer Up with Graceful Restart, a Route Monitoring UPDATE whose MP_REACH_NLRI (IPv6 unicast) has no
+    NLRI; the same for a peer without Graceful Restart; seeded C06-2: 12 Peer Downs for a peer that never came up, the page asked after each
+    of the last three."""
+    reach0 = "ffffffffffffffffffffffffffffffff003c02000000254001010040020602010000fbf4800e150002011020010db800000000000000000000000100"
+    attrs_only = "ffffffffffffffffffffffffffffffff0024020000000d4001010040020602010000fbf4"
+    mc = "ffffffffffffffffffffffffffffffff0033020000001c4001010040020602010000fbf4800e0c000102040a00000100100a01"
+    out = []
+    for s, gets in ((["I", "U.0.1", "RB.0." + reach0, "RB.0." + mc], [4]),
+                    (["I", "U.5.0", "RB.5." + reach0, "RB.5." + attrs_only, "RB.5." + mc], [5]),
+                    (["I"] + ["D.7"] * 12, [11, 12, 13])):
+        pool = render(sorted(set(s)))
+        items = []
+        for k, d in enumerate(s):
+            if k in gets:
+                items.append(GET)
+            items += list(bytes.fromhex(pool[d]))
+        if len(s) in gets:
+            items.append(GET)
+        out.append(make_case(Stream(items), {pool[d]: d for d in s}, False, None))
+    return out
 
 
 def corpus():
@@ -106,14 +271,19 @@ def corpus():
         "B 03ffffffff",
         "E wouldblock",
         "E other;E timedout;E interrupted;E unexpectedeof;B 0300000006",
-    ]
+        # the HTTP client on a connection that has said nothing yet, and after a framing error ended it
+        "G;Z hang",
+        "G;B 0300000004;G",
+    ] + corpus_wire()
 
 
-ENGINES = [{"name": "bstream", "gen": gen, "corpus": corpus, "nontrivial": nontrivial, "classify": classify, "shards": 12}]
+ENGINES = [{"name": "bstream", "gen": gen_all, "corpus": corpus, "nontrivial": nontrivial, "classify": classify, "shards": 12}]
 LEVEL_TEXT = ("Theorems over ALL scripts of read events and every parser, for the model of the BMP connection handler (framing, is_fatal table, read loop, "
               "message dispatch): no panic site is reachable in the repaired code; the read loop terminates on every script (end of file ends the session "
               "instead of being re-read); every connection ends in the post-loop cleanup; it ends only for end of file, unit shutdown, a fatal error kind or "
-              "a length field smaller than the header - never for content the parser or state machine rejects; where it ends is independent of the parser. "
+              "a length field smaller than the header - never for content the parser or state machine rejects; where it ends is independent of the parser; "
+              "the recent-parse-errors buffer (a Vec and an index, as written) answers get() for every history of pushes with the last 10 entries in arrival "
+              "order, so the router's page requested after any k read events of any script is a page with at most 10 entries (never a panic). "
               "Kernel-checked, axiom-free. The code before the repair: refuted by a 5-byte header with length < 5 (reproduced on the real code: panic at "
               "io.rs `&mut msg_buf[5..]`), and proved to have no other panic. Tied to the real read_from_router by thousands of hostile streams per run, each "
               "in its own task with a wedge/stuck watchdog.")
